@@ -104,6 +104,14 @@ class C05(Check):
                 ops.append({'task': 0, 'm': mname, 'p': p['name'], 'kind': 'assign_same', 'tok': 2 + 2 * k, 'dt': 0})
                 ops.append({'task': 1, 'm': mname, 'p': p['name'], 'kind': 'assign', 'tok': 3 + 2 * k,
                             'dt': 0.3 if k == 0 else 0, 'v': dtgen.valid_wire(rng, p['di'])})
+        elif rng.random() < 0.08:
+            # focus: several different values of one parameter stamped with the same device time (a clock with a
+            # resolution of 1 s), among other operations
+            mname, p = rng.choice(plist)
+            burst = [{'task': 0, 'm': mname, 'p': p['name'], 'kind': 'assign', 'tok': 900 + k, 'dt': rng.choice([0, 0.01]),
+                      'v': dtgen.valid_wire(rng, p['di']), 'ts': 'device'} for k in range(rng.randrange(2, 5))]
+            pos = rng.randrange(len(ops) + 1)
+            ops = ops[:pos] + burst + ops[pos:]
         shape = {'p_switch': rng.choice([0.1, 0.3, 0.6]), 'line_gaps': rng.choice([0, 0, 8, 12, 15]),
                  'seg_bias': rng.choice([1.0, 0.6]), 'lat_bias': rng.choice([1.0, 0.6]),
                  'specs': specs, 'ntasks': ntasks, 'slow_consumer': rng.random() < 0.15,
